@@ -523,7 +523,7 @@ pub fn run(args: &Args) {
                 let key = format!("{:?}", case.rendered.files);
                 let mut labels = vec![format!("project:tier:{}", case.tier), "phase:project(operations of compiled programs)".to_string()];
                 if let Some(m) = &stats.shape_mismatch {
-                    report.sample("project-shape-mismatch", 4, || json!({"mismatch": m}));
+                    crate::c10::SAMPLES.offer("project-shape-mismatch", vcore::hash_of(m), || json!({"mismatch": m}));
                     labels.push("project:operation-and-normalization-ast-differ-in-shape(C11)".into());
                 }
                 let l: Vec<&str> = labels.iter().map(|x| x.as_str()).collect();
@@ -532,7 +532,9 @@ pub fn run(args: &Args) {
                 report.label_n("project:selection-sets-checked", stats.selection_sets as u64);
                 report.label_n("project:fields-compared-with-runtime-key", stats.fields as u64);
                 report.label_n("project:fields-with-arguments", stats.fields_with_arguments as u64);
-                report.sample("project", 1, || json!({"kind": "project", "files": case.rendered.files}));
+                if stats.fields_with_arguments > 0 {
+                    crate::c10::SAMPLES.offer("project", vcore::hash_of(&key), || json!({"kind": "project", "files": case.rendered.files}));
+                }
                 resolve(&report, fails)
             }
         }
@@ -544,6 +546,7 @@ pub fn run(args: &Args) {
         report.violation("project", &fail, json!({"kind": "project", "files": case.rendered.files}));
     }
     report.unfreeze();
+    crate::c10::SAMPLES.flush(&report);
 
     let gp = guard_problems.lock().unwrap().clone();
     if !gp.is_empty() && report.violation_count() == 0 {
